@@ -11,7 +11,16 @@ import (
 	"verifharness/vlib"
 )
 
-const maxOrders = 24 // 4!
+// params are the tier's bounds.
+type params struct {
+	fams      []family
+	maxOrders int   // orders tried per diff: all n! when n! <= maxOrders, else maxOrders selected ones
+	strictMax int   // pairs with <= this many source lines in A and B together also get the fresh-copy/file-API/full-dump transition
+	allFaults bool  // pairs of <=1-line files: every faulty line at every position (else the first line of each class, first and last position)
+	bfsDepth  int   // diffs in a BFS chain
+	walkDepth int   // diffs in a physical walk
+	walkLines []int // the walk universe is the empty file and the one-line files of these source lines
+}
 
 // ---------------------------------------------------------------- findings
 
@@ -318,12 +327,54 @@ func orSame(s string) string {
 	return s
 }
 
-// ---------------------------------------------------------------- all transitions out of compile(A) towards B
+// ---------------------------------------------------------------- all transitions out of compile(A)
+
+// faultPlan says which faulty lines go where for the pair (a,b).
+func (w *world) faultPlan(li, a, b int, diff []string, universe []string) (out []struct {
+	ft  fault
+	pos []int
+}) {
+	A, B := w.states[a], w.states[b]
+	faults := w.faultsFor(li, a, b, universe)
+	nd := len(faults) - len(malformed)
+	small := len(A.src) <= 1 && len(B.src) <= 1
+	seenClass := map[string]bool{}
+	for fi, ft := range faults {
+		var pos []int
+		switch {
+		case small && w.p.allFaults:
+			for p := 0; p <= len(diff); p++ {
+				pos = append(pos, p)
+			}
+		case small:
+			// quick tier: the first line of every class, before the first and after the last valid line
+			if seenClass[ft.class] {
+				continue
+			}
+			seenClass[ft.class] = true
+			pos = []int{0}
+			if len(diff) > 0 {
+				pos = append(pos, len(diff))
+			}
+		default:
+			// every other pair: one undeletable and one malformed line (rotating through the
+			// lines with the pair), after all valid lines - where a writer that does not wait
+			// for the end of the diff has already written everything else
+			if !(fi == (a+b)%nd || fi == nd+(a+b)%len(malformed)) {
+				continue
+			}
+			pos = []int{len(diff)}
+		}
+		out = append(out, struct {
+			ft  fault
+			pos []int
+		}{ft, pos})
+	}
+	return out
+}
 
 func (w *world) pairTransitions(f *findings, bfs *bfs) {
 	n := len(w.states)
-	maxSrc := 1 // files of <= this many source lines on both sides get a fault at EVERY position
-	w.r.Set("faulty_every_position_max_source_lines_per_file", maxSrc)
 	// universe of lines that can be asked to be deleted: every preprocessed line of a one-line file
 	uni := map[string]bool{}
 	for _, s := range w.states {
@@ -340,117 +391,106 @@ func (w *world) pairTransitions(f *findings, bfs *bfs) {
 	sort.Strings(universe)
 	w.r.Set("faulty_deletable_line_universe", len(universe))
 
-	total := len(layouts) * n * n
-	w.run("pairs", total, f, bfs, nil, func(i int) {
-		li := i / (n * n)
-		a, b := (i/n)%n, i%n
-		A, B := w.states[a], w.states[b]
-		ca, cb := w.comp[li][a], w.comp[li][b]
-		diff := lineDiff(A.pre, B.pre)
-		perms, complete := orders(diff, maxOrders)
-		atomic.AddInt64(&cnt.Pairs, 1)
-		if complete {
-			atomic.AddInt64(&cnt.PairsAllOrders, 1)
-		} else {
-			atomic.AddInt64(&cnt.PairsCapped, 1)
-		}
-		atomicMax(&cnt.MaxDiffLines, int64(len(diff)))
-		nontrivial := int64(0)
-		if len(diff) > 0 {
-			nontrivial = 1
-		}
-		var v verdicts
-
-		// (1) the statement, literally: fresh copy of compile(A), the tool's own sequence
-		// open/ApplyDiff(file)/close, full raw-iterator dump, against dnsfix.DumpRDB(compile(B)).
-		{
-			lines := permute(diff, perms[0])
-			dir := copyStore(ca.dir, w.scratch)
-			res, raw := w.strictStep(dir, lines, true)
-			os.RemoveAll(dir)
-			atomic.AddInt64(&cnt.Strict, 1)
-			atomic.AddInt64(&cnt.SingleNontrivial, nontrivial)
-			if v.judge(res, raw, nil, cb, lines, "file-api") {
-				if id := raw.id(); id != cb.rawID {
-					bfs.offer(&rawState{li: li, id: id, canon: b, start: a, hist: [][]string{lines}, path: []int{a, b}})
-				}
-			}
-		}
-
-		// (2) every other order, then every faulty variant, through one session on another copy
-		faults := w.faultsFor(li, a, b, universe)
-		keys := keysOf(ca.ref, cb.ref)
+	// one work item per (layout, A): one session on a copy of compile(A) serves every B
+	w.run("pairs", len(layouts)*n, f, bfs, nil, func(i int) {
+		li, a := i/n, i%n
+		A := w.states[a]
+		ca := w.comp[li][a]
 		s := openSession(w.scratch, ca.dir, ca.raw)
 		atomic.AddInt64(&cnt.Sessions, 1)
-		for _, p := range perms[1:] {
-			lines := permute(diff, p)
-			res := s.apply(lines)
-			got, rerr := s.read(keys)
-			atomic.AddInt64(&cnt.Applies, 1)
-			atomic.AddInt64(&cnt.Evals, 1)
-			atomic.AddInt64(&cnt.Light, 1)
-			atomic.AddInt64(&cnt.SingleNontrivial, nontrivial)
-			if v.judge(res, got, rerr, cb, lines, "session") {
-				if id := got.id(); id != cb.rawID {
-					bfs.offer(&rawState{li: li, id: id, canon: b, start: a, hist: [][]string{lines}, path: []int{a, b}})
-				}
-			}
-			s.restore(keys, got, rerr == nil && res.panicked == nil)
-		}
-		if v.kind != "" {
-			det := fmt.Sprintf("%s: %s -> %s: %d of %d orders fail\n%s", layouts[li], A.name, B.name, len(v.bad), v.tried, strings.Join(head(v.bad, 4), "\n"))
-			f.add(&failure{kind: v.kind, li: li, path: []int{a, b}, detail: det, diffs: ([][]string{v.firstBad})})
-		}
-
-		full := len(A.src) <= maxSrc && len(B.src) <= maxSrc
-		nd := len(faults) - len(malformed)
-		for fi, ft := range faults {
-			var positions []int
-			if full {
-				for p := 0; p <= len(diff); p++ {
-					positions = append(positions, p)
-				}
+		for b := 0; b < n; b++ {
+			B := w.states[b]
+			cb := w.comp[li][b]
+			diff := lineDiff(A.pre, B.pre)
+			perms, complete := orders(diff, w.p.maxOrders)
+			atomic.AddInt64(&cnt.Pairs, 1)
+			if complete {
+				atomic.AddInt64(&cnt.PairsAllOrders, 1)
 			} else {
-				// every other pair: one undeletable and one malformed line (rotating through the
-				// classes with the pair), after all valid lines - where a writer that does not
-				// wait for the end of the diff has already written everything else
-				if !(fi == (a+b)%nd || fi == nd+(a+b)%len(malformed)) {
-					continue
-				}
-				positions = []int{len(diff)}
+				atomic.AddInt64(&cnt.PairsCapped, 1)
 			}
-			fkeys := keys
-			if len(ft.keys) > 0 {
-				extra := map[string][]string{}
-				for _, k := range ft.keys {
-					extra[k] = nil
-				}
-				fkeys = keysOf(ca.ref, cb.ref, extra)
+			atomicMax(&cnt.MaxDiffLines, int64(len(diff)))
+			nontrivial := int64(0)
+			if len(diff) > 0 {
+				nontrivial = 1
 			}
-			for _, pos := range positions {
-				lines := insertAt(diff, pos, ft.line)
+			var v verdicts
+
+			// (1) the statement, literally: fresh copy of compile(A), the tool's own sequence
+			// open/ApplyDiff(file)/close, full raw-iterator dump, against dnsfix.DumpRDB(compile(B)).
+			rest := perms
+			if len(A.src)+len(B.src) <= w.p.strictMax {
+				lines := permute(diff, perms[0])
+				dir := copyStore(ca.dir, w.scratch)
+				res, raw := w.strictStep(dir, lines, true)
+				os.RemoveAll(dir)
+				atomic.AddInt64(&cnt.Strict, 1)
+				atomic.AddInt64(&cnt.SingleNontrivial, nontrivial)
+				if v.judge(res, raw, nil, cb, lines, "file-api") {
+					if id := raw.id(); id != cb.rawID {
+						bfs.offer(&rawState{li: li, id: id, canon: b, start: a, hist: [][]string{lines}, path: []int{a, b}})
+					}
+				}
+				rest = perms[1:]
+			}
+
+			// (2) the (other) orders, then the faulty variants, through the session
+			keys := keysOf(ca.ref, cb.ref)
+			for _, p := range rest {
+				lines := permute(diff, p)
 				res := s.apply(lines)
-				got, rerr := s.read(fkeys)
+				got, rerr := s.read(keys)
 				atomic.AddInt64(&cnt.Applies, 1)
 				atomic.AddInt64(&cnt.Evals, 1)
-				atomic.AddInt64(&cnt.Faulty, 1)
-				atomic.AddInt64(&cnt.FaultyNontrivial, nontrivial)
-				kind := ""
-				switch {
-				case res.panicked != nil:
-					kind = "fault-panic"
-				case res.err == nil:
-					kind = "fault-accepted"
-				case rerr != nil || got.id() != ca.rawID:
-					kind = "fault-mutated"
+				atomic.AddInt64(&cnt.Light, 1)
+				atomic.AddInt64(&cnt.SingleNontrivial, nontrivial)
+				if v.judge(res, got, rerr, cb, lines, "session") {
+					if id := got.id(); id != cb.rawID {
+						bfs.offer(&rawState{li: li, id: id, canon: b, start: a, hist: [][]string{lines}, path: []int{a, b}})
+					}
 				}
-				if kind != "" {
-					det := fmt.Sprintf("%s: store compiled from %s, diff towards %s with faulty line %q (%s) at position %d of %d: %q\nApplyDiff: %s\nstore before vs after: %s %v",
-						layouts[li], A.name, B.name, ft.line, ft.class, pos, len(diff), lines, res, orSame(diffExact(got, ca.ref)), rerr)
-					f.add(&failure{kind: kind, sub: ft.class, li: li, path: []int{a, b}, detail: det, diffs: ([][]string{lines})})
+				s.restore(keys, got, rerr == nil && res.panicked == nil)
+			}
+			if v.kind != "" {
+				det := fmt.Sprintf("%s: %s -> %s: %d of %d orders fail\n%s", layouts[li], A.name, B.name, len(v.bad), v.tried, strings.Join(head(v.bad, 4), "\n"))
+				f.add(&failure{kind: v.kind, li: li, path: []int{a, b}, detail: det, diffs: [][]string{v.firstBad}})
+			}
+
+			for _, fp := range w.faultPlan(li, a, b, diff, universe) {
+				ft := fp.ft
+				fkeys := keys
+				if len(ft.keys) > 0 {
+					extra := map[string][]string{}
+					for _, k := range ft.keys {
+						extra[k] = nil
+					}
+					fkeys = keysOf(ca.ref, cb.ref, extra)
 				}
-				if kind != "" || got.id() != ca.rawID {
-					s.restore(fkeys, got, rerr == nil && res.panicked == nil)
+				for _, pos := range fp.pos {
+					lines := insertAt(diff, pos, ft.line)
+					res := s.apply(lines)
+					got, rerr := s.read(fkeys)
+					atomic.AddInt64(&cnt.Applies, 1)
+					atomic.AddInt64(&cnt.Evals, 1)
+					atomic.AddInt64(&cnt.Faulty, 1)
+					atomic.AddInt64(&cnt.FaultyNontrivial, nontrivial)
+					kind := ""
+					switch {
+					case res.panicked != nil:
+						kind = "fault-panic"
+					case res.err == nil:
+						kind = "fault-accepted"
+					case rerr != nil || got.id() != ca.rawID:
+						kind = "fault-mutated"
+					}
+					if kind != "" {
+						det := fmt.Sprintf("%s: store compiled from %s, diff towards %s with faulty line %q (%s) at position %d of %d: %q\nApplyDiff: %s\nstore before vs after: %s %v",
+							layouts[li], A.name, B.name, ft.line, ft.class, pos, len(diff), lines, res, orSame(diffExact(got, ca.ref)), rerr)
+						f.add(&failure{kind: kind, sub: ft.class, li: li, path: []int{a, b}, detail: det, diffs: [][]string{lines}})
+					}
+					if kind != "" || got.id() != ca.rawID {
+						s.restore(fkeys, got, rerr == nil && res.panicked == nil)
+					}
 				}
 			}
 		}
@@ -461,9 +501,9 @@ func (w *world) pairTransitions(f *findings, bfs *bfs) {
 		atomic.AddInt64(&cnt.Evals, 1)
 		atomic.AddInt64(&cnt.Resets, int64(s.resets))
 		if final.id() != ca.rawID {
-			det := fmt.Sprintf("%s: session on compile(%s) with diffs towards %s: every case was undone on the keys of both files, yet the closed store differs from compile(%s): %s",
-				layouts[li], A.name, B.name, A.name, orSame(diffExact(final, ca.ref)))
-			f.add(&failure{kind: "residue", li: li, path: []int{a, b}, detail: det, diffs: ([][]string{diff})})
+			det := fmt.Sprintf("%s: session on compile(%s): every case was undone on the keys it could touch, yet the closed store differs from compile(%s): %s",
+				layouts[li], A.name, A.name, orSame(diffExact(final, ca.ref)))
+			f.add(&failure{kind: "residue", li: li, path: []int{a}, detail: det})
 		}
 	})
 }
@@ -594,29 +634,28 @@ func (b *bfs) run(f *findings, maxDepth int) {
 }
 
 // expand takes every frontier state (rebuilt in dirs) through the diff to every
-// other file of the universe in every order.
+// other file of the universe in every order; one session per state.
 func (b *bfs) expand(f *findings, frontier []*rawState, dirs []string) {
 	w := b.w
-	n := len(w.states)
-	{
-		w.run("bfs", len(frontier)*n, f, b, func(j *job) {
-			for _, s := range frontier {
-				j.Frontier = append(j.Frontier, toGob(s))
-			}
-			j.Dirs = dirs
-		}, func(i int) {
-			s, c := frontier[i/n], i%n
+	w.run("bfs", len(frontier), f, b, func(j *job) {
+		for _, s := range frontier {
+			j.Frontier = append(j.Frontier, toGob(s))
+		}
+		j.Dirs = dirs
+	}, func(i int) {
+		s := frontier[i]
+		ss := openSession(w.scratch, dirs[i], s.raw)
+		atomic.AddInt64(&cnt.Sessions, 1)
+		for c := range w.states {
 			if c == s.canon || !b.inUniverse(c) {
-				return
+				continue
 			}
 			C := w.states[c]
 			cc := w.comp[s.li][c]
 			diff := lineDiff(w.states[s.canon].pre, C.pre)
-			perms, _ := orders(diff, maxOrders)
+			perms, _ := orders(diff, w.p.maxOrders)
 			path := append(append([]int{}, s.path...), c)
 			keys := keysOf(s.raw, cc.ref)
-			ss := openSession(w.scratch, dirs[i/n], s.raw)
-			atomic.AddInt64(&cnt.Sessions, 1)
 			var v verdicts
 			for _, p := range perms {
 				lines := permute(diff, p)
@@ -632,19 +671,20 @@ func (b *bfs) expand(f *findings, frontier []*rawState, dirs []string) {
 				}
 				ss.restore(keys, got, rerr == nil && res.panicked == nil)
 			}
-			final := ss.close()
-			atomic.AddInt64(&cnt.FullDumps, 1)
-			atomic.AddInt64(&cnt.Evals, 1)
-			atomic.AddInt64(&cnt.Resets, int64(ss.resets))
-			if v.kind == "" && final.id() != s.id {
-				v.note("mismatch", diff, "closed store differs from the rebuilt state after undoing every case: "+orSame(diffExact(final, s.raw.canon())))
-			}
 			if v.kind != "" {
 				det := fmt.Sprintf("%s: store reached by %s (diffs %q), then towards %s: %d of %d orders fail\n%s", layouts[s.li], w.pathNames(s.path), s.hist, C.name, len(v.bad), v.tried, strings.Join(head(v.bad, 4), "\n"))
-				f.add(&failure{kind: "chain-" + v.kind, li: s.li, path: path, detail: det, diffs: (append(append([][]string{}, s.hist...), v.firstBad))})
+				f.add(&failure{kind: "chain-" + v.kind, li: s.li, path: path, detail: det, diffs: append(append([][]string{}, s.hist...), v.firstBad)})
 			}
-		})
-	}
+		}
+		final := ss.close()
+		atomic.AddInt64(&cnt.FullDumps, 1)
+		atomic.AddInt64(&cnt.Evals, 1)
+		atomic.AddInt64(&cnt.Resets, int64(ss.resets))
+		if final.id() != s.id {
+			det := fmt.Sprintf("%s: session on the store reached by %s (diffs %q): every case was undone, yet the closed store differs from that state: %s", layouts[s.li], w.pathNames(s.path), s.hist, orSame(diffExact(final, s.raw.canon())))
+			f.add(&failure{kind: "chain-residue", li: s.li, path: s.path, detail: det, diffs: s.hist})
+		}
+	})
 }
 
 func (w *world) pathNames(p []int) string {
@@ -665,11 +705,17 @@ func (w *world) pathNames(p []int) string {
 func (w *world) walks(f *findings) {
 	var small []int
 	for _, s := range w.states {
-		if len(s.src) <= 1 {
+		ok := len(s.src) == 0
+		for _, l := range w.p.walkLines {
+			if len(s.src) == 1 && s.src[0] == l {
+				ok = true
+			}
+		}
+		if ok {
 			small = append(small, s.idx)
 		}
 	}
-	depth := w.r.Pick(2, 3)
+	depth := w.p.walkDepth
 	w.r.Set("walk_files", len(small))
 	w.r.Set("walk_depth", depth)
 	m := len(small)
